@@ -335,7 +335,17 @@ def generate(repo):
         missing.append(("C10_ENTRY_SITES", "src", str(e)))
     if not entries:
         missing.append(("C10_ENTRY_SITES", "src", "no add_known_address / dial_address call found"))
-    write(variants, gates, arms, sorted(consts.items()), sites, entries, order)
+    # the version of the ip_network crate the classification of coq/C10/IpClass.v was transcribed from
+    ipn = ""
+    try:
+        lock = open(os.path.join(repo, "Cargo.lock")).read()
+        vs = re.findall(r'name\s*=\s*"ip_network"\s*\nversion\s*=\s*"([^"]+)"', lock)
+        ipn = ",".join(sorted(set(vs)))
+    except OSError as e:
+        missing.append(("C10_ENTRY_SITES", "Cargo.lock", str(e)))
+    if not ipn:
+        missing.append(("C10_ENTRY_SITES", "Cargo.lock", "package ip_network not found"))
+    write(variants, gates, arms, sorted(consts.items()), sites, entries, order, ipn)
     leaves = 0
     for _, l2 in variants:
         if not l2:
@@ -350,7 +360,7 @@ def coq_z(v):
     return "(%d)%%Z" % v
 
 
-def write(variants, gates, arms, consts, sites, entries=(), order=()):
+def write(variants, gates, arms, consts, sites, entries=(), order=(), ipn=""):
     def strs(l):
         return "[" + "; ".join('"%s"' % x for x in l) + "]"
 
@@ -395,6 +405,9 @@ def write(variants, gates, arms, consts, sites, entries=(), order=()):
         "(* the register_listen_address / add_known_address calls of Litep2p::new (src/lib.rs), in source order *)",
         "Definition new_call_order : list string :=",
         "  [" + "; ".join('"%s"' % x for x in order) + "].",
+        "",
+        "(* version(s) of the ip_network crate in Cargo.lock *)",
+        'Definition ip_network_version : string := "%s".' % ipn,
     ]
     text = "\n".join(lines) + "\n"
     os.makedirs(os.path.dirname(OUT), exist_ok=True)
